@@ -224,8 +224,11 @@ class C04(C02):
         # make a default value meaningful (the empty string as a target, an empty / odd offset, now far in the future)
         bodies = ["rm", "rm name", "rm nam='a'", "rm name=''", "rm name=a", "rm  name", "rm c='name' name", "rm unwrap-block",
                   "tl", "tl to", "tl to=''", "tl to='x'", "tl t='2000-01-01 00:00:00'", "tl to=2000-01-01", "tl to unwrap-block",
-                  "tl name=''", "rm to='2000-01-01 00:00:00'"]
-        cfgs2 = [Cfg(targets=("",)), Cfg(targets=("", "a")), Cfg(targets=("name", "")), Cfg(off="", targets=("",)),
+                  "tl name=''", "rm to='2000-01-01 00:00:00'",
+                  # an unquoted value swallows what follows up to the next blank - line breaks included
+                  "tl rev=3\nto='2000-01-01 00:00:00'", "rm x=1\nname='a'", "rm x=1\n name='a'", "rm x=1\tname='a'",
+                  "tl rev=3\n\tto='2000-01-01 00:00:00'", "rm x=y\nname='a' z", "tl a=b\nto='2000-01-01 00:00:00'\nc"]
+        cfgs2 = [proto.DEFAULT_CFG, Cfg(targets=("",)), Cfg(targets=("", "a")), Cfg(targets=("name", "")), Cfg(off="", targets=("",)),
                  Cfg(now=4102444800, targets=("",)), Cfg(now=4102444800, off="", targets=("", "x")),
                  Cfg(tl="rm", rm="rm", targets=("",)), Cfg(tl="tl", rm="tl", targets=("",))]
         for b in bodies:
